@@ -177,6 +177,14 @@ func (c *FnCtx) storeRegions(addr ssa.Value) []string {
 			et = u.Elem().Underlying().(*types.Array).Elem()
 		}
 		return []string{c.elemRegion(et)}
+	case *ssa.Alloc:
+		if isPrivateAlloc(a) {
+			return []string{c.localRegion(a)}
+		}
+		return c.regionsOfPointee(derefT(addr.Type()))
+	case *ssa.FreeVar:
+		// captured private local of the enclosing function: resolved when the closure is inlined
+		return nil
 	default:
 		return c.regionsOfPointee(derefT(addr.Type()))
 	}
@@ -698,7 +706,7 @@ func (c *FnCtx) val(fr *frame, v ssa.Value) Term {
 
 // frameTerm: "region r differs from its entry version only at the refs listed in modifies".
 func (c *FnCtx) frameTerm(fr *frame, st *State, r string) (string, bool) {
-	if fr.modWhole[r] || c.prof.isTracked(r) {
+	if fr.modWhole[r] || c.prof.isTracked(r) || strings.HasPrefix(r, "L_") {
 		return "", false
 	}
 	srt := c.regSort[r]
